@@ -880,6 +880,13 @@ class TemplateRun:
         serialisable), and nothing else."""
         if kind == "legacy":
             return self.world["device"]["kind"] == "physical"
+        # the abstract representation documents one waveform it cannot carry: an
+        # InterpolatedWaveform with another interpolator or interpolator keywords
+        # (AbstractReprError; a bare ValueError from the signature check when the
+        # waveform is parametrized)
+        if "interp1d_kind" in json.dumps(self.world["program"]) and type(e).__name__ in ("AbstractReprError", "ValueError") and "nterpolat" in str(e):
+            self.stats["documented_refusal/interpolator_kwargs"] += 1
+            return True
         return False
 
     def built_restart(self, i, op):
